@@ -227,6 +227,9 @@ class Parser(object):
         elements : element COMMA elements
         """
 
+        if isinstance(p[3], dict):
+            raise SyntaxError("Syntax error: a list cannot mix values and key/value pairs (line {0})".format(p.lineno(2)))
+
         p[0] = [p[1]] + p[3]
 
     def p_elements_element(self, p):
